@@ -300,3 +300,243 @@ Proof. intros HP Hn. unfold resolve. rewrite (resolve_order_perm p_name p_prio r
 Lemma aresolve_perm reg specs specs' :
   Permutation specs specs' -> NoDup specs -> aresolve reg specs = aresolve reg specs'.
 Proof. intros HP Hn. unfold aresolve. rewrite (resolve_order_perm _ _ reg _ _ HP Hn). reflexivity. Qed.
+
+(* ------------------------------------------------------------------ ownership: mk / add *)
+Lemma memN_In u l : memN u l = true <-> In u l.
+Proof.
+  unfold memN. rewrite existsb_exists. split.
+  - intros [x [Hx E]]. apply N.eqb_eq in E. subst. exact Hx.
+  - intros H. exists u. split; [exact H | apply N.eqb_refl].
+Qed.
+Lemma memN_false u l : memN u l = false <-> ~ In u l.
+Proof.
+  rewrite <- memN_In. destruct (memN u l); split; intros H; try reflexivity; try discriminate.
+  exfalso. apply H. reflexivity.
+Qed.
+
+Lemma clear_all_spec us : forall own u, clear_all own us u = if memN u us then None else own u.
+Proof.
+  unfold clear_all. induction us as [|x us IH]; intros own u; simpl; [reflexivity|].
+  rewrite IH. unfold upd. destruct (N.eqb u x); simpl; [destruct (memN u us); reflexivity | reflexivity].
+Qed.
+
+Lemma own_all_first_dup pid us : forall own seen,
+  (forall u, In u (map fst us) -> (own u <> None <-> In u seen)) ->
+  snd (own_all own pid us) = first_dup seen us.
+Proof.
+  induction us as [|[u t] us IH]; intros own seen H; simpl; [reflexivity|].
+  destruct (own u) eqn:E.
+  - assert (Hin : In u seen) by (apply H; [left; reflexivity | congruence]).
+    apply memN_In in Hin. rewrite Hin. reflexivity.
+  - assert (Hn : memN u seen = false).
+    { apply memN_false. intros Hin. apply (H u) in Hin; [congruence | left; reflexivity]. }
+    rewrite Hn. apply IH. intros u' Hu'. unfold upd. simpl.
+    destruct (N.eqb u' u) eqn:Eu.
+    + apply N.eqb_eq in Eu. subst. split; [intros _; left; reflexivity | intros _; discriminate].
+    + assert (u' <> u) by (intro; subst; rewrite N.eqb_refl in Eu; discriminate).
+      rewrite (H u') by (right; exact Hu'). split; [intros; right; assumption | intros [?|?]; [congruence | assumption]].
+Qed.
+
+Lemma own_all_ok pid us : forall own own', own_all own pid us = (own', None) ->
+  forall u, own' u = if memN u (map fst us) then Some pid else own u.
+Proof.
+  induction us as [|[u0 t] us IH]; intros own own' H u; simpl in *.
+  - inversion H. reflexivity.
+  - destruct (own u0) eqn:E; [discriminate|].
+    rewrite (IH _ _ H u). unfold upd. destruct (N.eqb u u0) eqn:Eu; simpl.
+    + destruct (memN u (map fst us)); reflexivity.
+    + reflexivity.
+Qed.
+
+Lemma mk_ok h its ps fs vars prio name h' s : mk h its ps fs vars prio name = (h', Ok s) ->
+  (forall u, h_own h' u = if memN u (map fst (tagged its ps fs)) then Some (h_next h) else h_own h u) /\
+  s = {| p_id := h_next h; p_items := its; p_post := ps; p_fin := fs; p_prio := prio; p_name := name |} /\
+  h_vars h' = upd (h_vars h) (h_next h) vars /\ h_state h' = upd (h_state h) (h_next h) [] /\
+  h_next h' = N.succ (h_next h).
+Proof.
+  unfold mk. destruct (own_all (h_own h) (h_next h) (tagged its ps fs)) as [own' e] eqn:E. simpl.
+  destruct e; intros H; inversion H; subst; clear H. simpl.
+  split; [intros u; apply (own_all_ok _ _ _ _ E) | repeat split].
+Qed.
+
+Lemma mk_defined h its ps fs vars prio name :
+  (forall u, In u (map fst (tagged its ps fs)) -> h_own h u = None) ->
+  snd (mk h its ps fs vars prio name) =
+  match first_dup [] (tagged its ps fs) with
+  | None => Ok {| p_id := h_next h; p_items := its; p_post := ps; p_fin := fs; p_prio := prio; p_name := name |}
+  | Some t => SigmaErr t
+  end.
+Proof.
+  intros H. unfold mk. simpl. rewrite (own_all_first_dup _ _ _ []); [reflexivity|].
+  intros u Hu. rewrite (H u Hu). split; [congruence | intros []].
+Qed.
+
+Lemma tagged_app i1 i2 q1 q2 f1 f2 u :
+  In u (map fst (tagged (i1 ++ i2) (q1 ++ q2) (f1 ++ f2))) <->
+  In u (map fst (tagged i1 q1 f1)) \/ In u (map fst (tagged i2 q2 f2)).
+Proof.
+  unfold tagged. repeat rewrite ?map_app, ?in_app_iff. tauto.
+Qed.
+
+(* p + q is defined exactly when no object occurs twice in the concatenation *)
+Lemma add_defined h p q :
+  snd (add h p q) =
+  match first_dup [] (tagged (p_items p ++ p_items q) (p_post p ++ p_post q) (p_fin p ++ p_fin q)) with
+  | None => Ok {| p_id := h_next h; p_items := p_items p ++ p_items q; p_post := p_post p ++ p_post q;
+                  p_fin := p_fin p ++ p_fin q; p_prio := 0%Z; p_name := None |}
+  | Some t => SigmaErr t
+  end.
+Proof.
+  unfold add. rewrite mk_defined; [reflexivity|]. simpl. intros u Hu.
+  rewrite !clear_all_spec. apply tagged_app in Hu. unfold uids, ptagged.
+  destruct Hu as [Hu|Hu]; apply memN_In in Hu.
+  - destruct (memN u (map fst (tagged (p_items q) (p_post q) (p_fin q)))); [reflexivity|]. rewrite Hu. reflexivity.
+  - rewrite Hu. reflexivity.
+Qed.
+
+Lemma add_ok h p q h' s : add h p q = (h', Ok s) ->
+  owned h' s /\
+  s = {| p_id := h_next h; p_items := p_items p ++ p_items q; p_post := p_post p ++ p_post q;
+         p_fin := p_fin p ++ p_fin q; p_prio := 0%Z; p_name := None |} /\
+  h_vars h' = upd (h_vars h) (h_next h) (dmerge (h_vars h (p_id p)) (h_vars h (p_id q))) /\
+  h_state h' = upd (h_state h) (h_next h) [] /\ h_next h' = N.succ (h_next h).
+Proof.
+  unfold add. intros H. apply mk_ok in H. simpl in H. destruct H as (Ho & Hs & Hv & Hst & Hn).
+  split; [|repeat split; assumption].
+  subst s. unfold owned, uids, ptagged. simpl. intros u Hu. rewrite Ho.
+  apply memN_In in Hu. rewrite Hu. reflexivity.
+Qed.
+
+(* addition is concatenation (with right-biased union of the variables), and the sum owns its objects *)
+Lemma add_refines h p q h' s : add h p q = (h', Ok s) ->
+  abs h' s = aplus (abs h p) (abs h q) /\ owned h' s.
+Proof.
+  intros H. apply add_ok in H. destruct H as (Ho & Hs & Hv & _ & _). split; [|exact Ho].
+  subst s. unfold abs, aplus. simpl. rewrite Hv. unfold upd. rewrite N.eqb_refl. reflexivity.
+Qed.
+
+(* ------------------------------------------------------------------ running an owned pipeline *)
+Lemma uid_item its ps fs i : In i its -> In (i_uid i) (map fst (tagged its ps fs)).
+Proof.
+  intros H. unfold tagged. rewrite !map_app, !in_app_iff. left. rewrite map_map. simpl.
+  apply in_map_iff. exists i. split; [reflexivity | exact H].
+Qed.
+Lemma uid_post its ps fs q : In q ps -> In (q_uid q) (map fst (tagged its ps fs)).
+Proof.
+  intros H. unfold tagged. rewrite !map_app, !in_app_iff. right. left. rewrite map_map. simpl.
+  apply in_map_iff. exists q. split; [reflexivity | exact H].
+Qed.
+
+Definition simst (self : N) (h : heap) (m : mstate) (t : tstate) : Prop :=
+  m_conj m = t_conj t /\ m_applied m = t_applied t /\ m_ids m = t_ids t /\ h_state h self = t_state t.
+
+Lemma item_step_ref self h m t i :
+  h_own h (i_uid i) = Some self -> simst self h m t ->
+  exists h' m', m_item_step (Ok (h, m)) i = Ok (h', m') /\ simst self h' m' (a_item_step t i) /\
+                h_own h' = h_own h /\ h_vars h' = h_vars h.
+Proof.
+  intros Ho (A & B & C & D). unfold m_item_step, a_item_step. cbn [obind fst snd].
+  assert (Ec : m_cond h (i_uid i) (i_cond i) = Ok (cond_holds (t_state t) (i_cond i))).
+  { unfold m_cond. destruct (i_cond i) as [kv|]; [rewrite Ho, D; reflexivity | reflexivity]. }
+  rewrite Ec. cbn [obind]. destruct (cond_holds (t_state t) (i_cond i)).
+  - destruct (i_kind i) as [k v|s|f v]; rewrite ?Ho; eexists; eexists; (split; [reflexivity|]);
+      unfold simst; cbn; rewrite ?A, ?B, ?C, ?D; repeat split; try reflexivity.
+    unfold upd. rewrite N.eqb_refl. reflexivity.
+  - eexists; eexists; split; [reflexivity|]. unfold simst; cbn. rewrite A, B, C, D. repeat split; reflexivity.
+Qed.
+
+Lemma items_ref self its : forall h m t,
+  (forall i, In i its -> h_own h (i_uid i) = Some self) -> simst self h m t ->
+  exists h' m', fold_left m_item_step its (Ok (h, m)) = Ok (h', m') /\
+                simst self h' m' (fold_left a_item_step its t) /\ h_own h' = h_own h /\ h_vars h' = h_vars h.
+Proof.
+  induction its as [|i its IH]; intros h m t Ho Hs.
+  - exists h, m. repeat split; try reflexivity; apply Hs.
+  - destruct (item_step_ref self h m t i (Ho i (or_introl eq_refl)) Hs) as (h1 & m1 & E1 & S1 & O1 & V1).
+    destruct (IH h1 m1 (a_item_step t i)) as (h2 & m2 & E2 & S2 & O2 & V2).
+    + intros j Hj. rewrite O1. apply Ho. right. exact Hj.
+    + exact S1.
+    + exists h2, m2. cbn [fold_left]. rewrite E1. split; [exact E2|]. split; [exact S2|].
+      split; congruence.
+Qed.
+
+Lemma post_step_ref self h acc p : h_own h (q_uid p) = Some self ->
+  m_post_step h acc p = a_post_step (h_state h self) (h_vars h self) acc p.
+Proof.
+  intros Ho. unfold m_post_step, a_post_step. destruct acc as [qi|t|t]; cbn [obind]; try reflexivity.
+  assert (Ec : m_cond h (q_uid p) (q_cond p) = Ok (cond_holds (h_state h self) (q_cond p))).
+  { unfold m_cond. destruct (q_cond p) as [kv|]; [rewrite Ho; reflexivity | reflexivity]. }
+  rewrite Ec. cbn [obind]. destruct (cond_holds (h_state h self) (q_cond p)); [|reflexivity].
+  destruct (q_kind p); rewrite ?Ho; reflexivity.
+Qed.
+Lemma post_fold_ref self h ps : forall acc, (forall p, In p ps -> h_own h (q_uid p) = Some self) ->
+  fold_left (m_post_step h) ps acc = fold_left (a_post_step (h_state h self) (h_vars h self)) ps acc.
+Proof.
+  induction ps as [|p ps IH]; intros acc Ho; [reflexivity|]. cbn [fold_left].
+  rewrite (post_step_ref self) by (apply Ho; left; reflexivity). apply IH. intros q Hq. apply Ho. right. exact Hq.
+Qed.
+Lemma post_ref self h ps qs : forall ids, (forall p, In p ps -> h_own h (q_uid p) = Some self) ->
+  m_post h ps qs ids = stage_post ps (h_state h self) (h_vars h self) qs ids.
+Proof.
+  induction qs as [|q qs IH]; intros ids Ho; [reflexivity|]. cbn [m_post stage_post]. unfold stage_post_one.
+  rewrite (post_fold_ref self) by exact Ho.
+  destruct (fold_left _ ps (Ok (q, ids))) as [qi|t|t]; cbn [obind]; try reflexivity.
+  rewrite IH by exact Ho. reflexivity.
+Qed.
+
+Definition rrel (own0 : N -> option N) (vars0 : N -> dict) (ma : outcome (heap * racc)) (aa : outcome racc) : Prop :=
+  match ma, aa with
+  | Ok ha, Ok a' => snd ha = a' /\ h_own (fst ha) = own0 /\ h_vars (fst ha) = vars0
+  | SigmaErr t, SigmaErr t' => t = t'
+  | Crash t, Crash t' => t = t'
+  | _, _ => False
+  end.
+
+Lemma rule_ref f self own0 vars0 ma aa r :
+  (forall u, In u (uids self) -> own0 u = Some (p_id self)) ->
+  rrel own0 vars0 ma aa ->
+  rrel own0 vars0 (m_rule f self ma r)
+       (abs_rule f {| a_items := p_items self; a_post := p_post self; a_fin := p_fin self; a_vars := vars0 (p_id self) |} aa r).
+Proof.
+  intros Ho R. unfold m_rule, abs_rule.
+  destruct ma as [[h a]|t|t], aa as [a'|t'|t']; cbn in R; try contradiction; cbn [obind]; try exact R.
+  destruct R as (Ea & Eo & Ev). cbn [fst snd] in *. subst a'.
+  cbn [a_items a_post a_vars].
+  destruct (items_ref (p_id self) (p_items self) (set_state h (p_id self) [])
+              {| m_conj := [(r_field r, r_value r)]; m_applied := []; m_ids := [] |} (t_init r))
+    as (h1 & m1 & E1 & (A & B & C & D) & O1 & V1).
+  { intros i Hi. cbn. rewrite Eo. apply Ho. apply uid_item. exact Hi. }
+  { unfold simst. cbn. unfold upd. rewrite N.eqb_refl. repeat split; reflexivity. }
+  unfold m_apply. rewrite E1. cbn [obind fst snd].
+  cbn in O1, V1.
+  rewrite (post_ref (p_id self)).
+  2:{ intros p Hp. rewrite O1, Eo. apply Ho. apply uid_post. exact Hp. }
+  unfold stage_transform, stage_convert. rewrite A, B, C, D, V1, Ev.
+  destruct (stage_post _ _ _ _ _) as [qi|t|t]; cbn [obind]; cbn; [|reflexivity|reflexivity].
+  repeat split; congruence.
+Qed.
+
+Lemma rules_ref f self own0 vars0 rules : forall ma aa,
+  (forall u, In u (uids self) -> own0 u = Some (p_id self)) ->
+  rrel own0 vars0 ma aa ->
+  rrel own0 vars0 (fold_left (m_rule f self) rules ma)
+       (fold_left (abs_rule f {| a_items := p_items self; a_post := p_post self; a_fin := p_fin self; a_vars := vars0 (p_id self) |}) rules aa).
+Proof.
+  induction rules as [|r rules IH]; intros ma aa Ho R; [exact R|].
+  cbn [fold_left]. apply IH; [exact Ho|]. apply rule_ref; assumption.
+Qed.
+
+(* a pipeline that owns all its objects converts every rule list exactly like the abstract pipeline *)
+Lemma behaviour h f p rules : owned h p -> snd (m_run h f p rules) = abs_run f (abs h p) rules.
+Proof.
+  intros Ho. unfold m_run, abs_run, abs.
+  pose proof (rules_ref f p (h_own h) (h_vars h) rules
+                (Ok (h, {| ra_qs := []; ra_obs := []; ra_ids := [] |}))
+                (Ok {| ra_qs := []; ra_obs := []; ra_ids := [] |}) Ho) as R.
+  specialize (R (conj eq_refl (conj eq_refl eq_refl))).
+  destruct (fold_left (m_rule f p) rules _) as [[h1 a]|t|t];
+    destruct (fold_left (abs_rule f _) rules _) as [a'|t'|t']; cbn in R; try contradiction; cbn [obind snd fst].
+  - destruct R as (Ea & _ & Ev). subst a'. rewrite Ev. reflexivity.
+  - congruence.
+  - congruence.
+Qed.
